@@ -217,6 +217,11 @@ func vGoDepth() int                  { return 0 }
 // vDepthBound(n): from here on, interpreted Go recursion deeper than n frames is a violation on
 // this path (natively the same input overflows the goroutine stack: a fatal error).
 func vDepthBound(n int) {}
+
+// vInstrBound(n): from here on, more than n interpreted Go instructions on this path is a violation
+// (the work a limit-configured runtime does for this input must stay bounded); vInstrBound(0) ends
+// the watch.  Natively the same input does not return in reasonable time (the replay times out).
+func vInstrBound(n int) {}
 func vSteps() int64                  { return 0 }
 
 var verifEntries = map[string]func(){}
